@@ -3,6 +3,7 @@ import StunVerif.Props.C18Codec
 import StunVerif.Props.SrcFnAgent
 import StunVerif.Props.SrcFnPoll
 import StunVerif.Props.SrcFnGlue
+import StunVerif.Props.SrcFnWrite
 #print axioms StunVerif.C18.send_tx
 #print axioms StunVerif.C18.poll_tx
 #print axioms StunVerif.C18.remembered_fixed
@@ -52,3 +53,11 @@ import StunVerif.Props.SrcFnGlue
 #print axioms StunVerif.SrcFnGlue.src_msgRawAttribute
 #print axioms StunVerif.SrcFnGlue.src_msgHasAttribute
 #print axioms StunVerif.SrcFnGlue.src_inMsg
+#print axioms StunVerif.SrcFnWrite.src_byteLen
+#print axioms StunVerif.SrcFnWrite.src_writeAttrsLoop
+#print axioms StunVerif.SrcFnWrite.encBE_mod
+#print axioms StunVerif.SrcFnWrite.tid_word
+#print axioms StunVerif.SrcFnWrite.header_puts
+#print axioms StunVerif.SrcFnWrite.src_writeInto
+#print axioms StunVerif.SrcFnWrite.src_build
+#print axioms StunVerif.SrcFnWrite.build_is_source
